@@ -185,6 +185,41 @@ def history_variants(K, pristine, tol):
         pass
 
 
+def reuse_variant(K, pristine, tol):
+    """A third history, for METHODS (fit / filter / predict / split ... of an object among the arguments): the same
+    object first serves a call on OTHER data of the same shapes (every float array reversed and mapped affinely), then
+    the sample itself - whatever the first call left on the object, the contract of the second call must hold (refit =
+    fresh fit, a second filter / split is not influenced by the first). Yields (label, outcome of the second call)."""
+    import copy
+
+    if pristine is None or "." not in K.target.split(":")[-1] or not getattr(K, "reuse_variant", True):
+        return
+    a0, k0 = pristine
+    try:
+        a1, k1 = copy.deepcopy(a0), copy.deepcopy(k0)
+        n = [0]
+
+        def other(x, k):
+            if x.dtype.kind != "f" or x.size < 2 or not np.all(np.isfinite(x)):
+                return x
+            n[0] += 1
+            span = float(x.max() - x.min()) + 1.0
+            return (x.ravel()[::-1].reshape(x.shape) * 0.83 + 0.11 * span).astype(x.dtype)
+
+        ao = tuple(a1[:1]) + tuple(_map_arrays(a1[1:], other, [0], True)) if isinstance(a1, tuple) else a1
+        ko = _map_arrays(k1, other, [0], True)
+        if n[0] == 0:
+            return
+        ao = (a1[0],) + tuple(ao[1:])  # the SAME object as in the second call
+        first = C.check_call(K, ao, ko, tol=tol)
+        if first.kind != "return":
+            return  # the other data are not acceptable to the method (or outside its precondition): no history made
+        a2 = (a1[0],) + tuple(copy.deepcopy(a0)[1:])
+        yield "after the same object served an earlier call on other data", C.check_call(K, a2, copy.deepcopy(k0), tol=tol)
+    except Exception:
+        return
+
+
 def run_samplers(keys, tier, seed, limit=None):
     from .contract import REGISTRY
 
@@ -258,7 +293,9 @@ def run_samplers(keys, tier, seed, limit=None):
                         }
                     )
             if getattr(K, "history_variants", True) and n <= (12 if tier == "thorough" else 5) and res.kind == "return" and not res.failures:
-                for label, hres in history_variants(K, pristine, getattr(K, "tol", None)):
+                import itertools
+
+                for label, hres in itertools.chain(history_variants(K, pristine, getattr(K, "tol", None)), reuse_variant(K, pristine, getattr(K, "tol", None))):
                     if hres.kind == "skipped":
                         continue
                     evaluations += 1
